@@ -87,7 +87,7 @@ def slot_env(slot, extra_unbound=()):
     fns = {}
     for name, script in slot['functions'].items():
         fns[name] = 1 if any(a['a'] in ('echo',) for a in script) else len(name) % 3
-    fns = dict((k, v) for k, v in fns.items() if k not in ('SUM', 'IF', 'ABS', 'LEN'))
+    fns = dict((k, (0 if k == 'REENTER' else v)) for k, v in fns.items() if k not in ('SUM', 'IF', 'ABS', 'LEN'))
     return Env(variables=sorted(slot['variables']), unbound=['u_0', 'zz_top'] + list(extra_unbound),
                functions=fns, cells=True)
 
